@@ -107,8 +107,8 @@ class Magnet():
             match = self._XT_REGEX.match(value)
             if match:
                 self._infohash = match.group(1)
-        if not hasattr(self, '_infohash'):
-            raise error.MagnetError(value, 'Invalid exact topic ("xt")')
+            else:
+                raise error.MagnetError(value, 'Invalid exact topic ("xt")')
 
     @property
     def infohash(self):
